@@ -26,32 +26,63 @@ def qmat(a):
     return [[q(float(v)) for v in row] for row in np.asarray(a)]
 
 
+def step_of(c, k):
+    """the step actually used for the k-th entry of the global step list (a per-variable override wins)"""
+    e = c['ov'] if c.get('ov') is not None else c['stepexps'][k]
+    return 2.0 ** -e
+
+
+def expected_fd(c, k):
+    """exact approximated jacobian of y = FD x + Q x^2 at x for the k-th step"""
+    FD = np.array(c['fd'], dtype=float) / 2.0
+    if c.get('quad') is None:
+        return FD
+    Q = np.array(c['quad'], dtype=float) / 2.0
+    x = np.array(c['x'], dtype=float)
+    h = step_of(c, k)
+    sgn = 0.0 if c['method'] == 'cs' else {'forward': 1.0, 'backward': -1.0, 'central': 0.0}[c['form']]
+    return FD + Q * (2.0 * x + sgn * h)[np.newaxis, :]
+
+
 def build(c):
     FD = np.array(c['fd'], dtype=float) / 2.0
     AN = np.array(c['an'], dtype=float) / 2.0
+    Q = None if c.get('quad') is None else np.array(c['quad'], dtype=float) / 2.0
     nr, nc = FD.shape
     fmt = c['fmt']
+    const = bool(c.get('const'))
     pat = [tuple(p) for p in c['pat']]
     r = np.array([p[0] for p in pat], dtype=int)
     k = np.array([p[1] for p in pat], dtype=int)
+
+    def sparse_val(data):
+        return getattr(sp, fmt + '_matrix')((data, (r, k)), shape=(nr, nc))
 
     class Comp(om.ExplicitComponent):
         def setup(self):
             self.add_input('x', np.ones(nc))
             self.add_output('y', np.zeros(nr))
+            kw = {}
+            if const:       # constant declared partials, no compute_partials
+                kw['val'] = (AN if fmt == 'dense' else AN[r, k] if fmt == 'rowscols' else
+                             np.diag(AN).copy() if fmt == 'diag' else sparse_val(AN[r, k]))
             if fmt == 'dense':
-                self.declare_partials('y', 'x')
+                self.declare_partials('y', 'x', **kw)
             elif fmt == 'rowscols':
-                self.declare_partials('y', 'x', rows=r, cols=k)
+                self.declare_partials('y', 'x', rows=r, cols=k, **kw)
             elif fmt == 'diag':
-                self.declare_partials('y', 'x', diagonal=True)
+                self.declare_partials('y', 'x', diagonal=True, **kw)
             else:
-                m = getattr(sp, fmt + '_matrix')((np.ones(r.size), (r, k)), shape=(nr, nc))
-                self.declare_partials('y', 'x', val=m)
+                self.declare_partials('y', 'x', val=kw.get('val', sparse_val(np.ones(r.size))))
+            if c.get('ov') is not None:
+                self.set_check_partial_options(wrt='x', step=2.0 ** -c['ov'], method=c['method'])
 
         def compute(self, i, o):
             o['y'] = FD @ i['x']
+            if Q is not None:
+                o['y'] = o['y'] + Q @ (i['x'] ** 2)
 
+    if not const:
         def compute_partials(self, i, p):
             if fmt == 'dense':
                 p['y', 'x'] = AN
@@ -60,7 +91,8 @@ def build(c):
             elif fmt == 'diag':
                 p['y', 'x'] = np.diag(AN).copy()
             else:
-                p['y', 'x'] = getattr(sp, fmt + '_matrix')((AN[r, k], (r, k)), shape=(nr, nc))
+                p['y', 'x'] = sparse_val(AN[r, k])
+        Comp.compute_partials = compute_partials
     return Comp(), FD, AN, pat
 
 
@@ -69,7 +101,11 @@ def first(v):
     return v[0] if isinstance(v, list) else v
 
 
-def errors_oracle(x, ref, atol, rtol, d, which, bad):
+def nth(v, k):
+    return v[k] if isinstance(v, list) else v
+
+
+def errors_oracle(x, ref, atol, rtol, d, which, bad, k=0):
     """recompute get_tol_violation's outputs exactly and compare with the reported ones"""
     xs = [fr(v) for v in np.asarray(x).ravel()]
     rs = [fr(v) for v in np.asarray(ref).ravel()]
@@ -78,10 +114,10 @@ def errors_oracle(x, ref, atol, rtol, d, which, bad):
     diffs = [abs(a - b) - (fr(atol) + fr(rtol) * abs(b)) for a, b in zip(xs, rs)]
     mx = max(diffs)
     i = diffs.index(mx)
-    tv = getattr(first(d['tol violation']), which)
-    ae = getattr(first(d['abs error']), which)
-    re_ = getattr(first(d['rel error']), which)
-    vx, vr = getattr(first(d['vals_at_max_error']), which)
+    tv = getattr(nth(d['tol violation'], k), which)
+    ae = getattr(nth(d['abs error'], k), which)
+    re_ = getattr(nth(d['rel error'], k), which)
+    vx, vr = getattr(nth(d['vals_at_max_error'], k), which)
     if fr(tv) != mx:
         bad.append('tol violation reported %r, max of |x-ref|-(atol+rtol|ref|) is %s' % (tv, mx))
     if fr(vx) != xs[i] or fr(vr) != rs[i]:
@@ -97,11 +133,11 @@ def errors_oracle(x, ref, atol, rtol, d, which, bad):
             bad.append('rel error %r, expected %s' % (re_, want))
 
 
-def tv_res(d, which):
-    tv = getattr(first(d['tol violation']), which)
-    re_ = getattr(first(d['rel error']), which)
-    vx, vr = getattr(first(d['vals_at_max_error']), which)
-    return [q(float(tv)), q(float(vx)), q(float(vr)), bool(tv > 0), q(float(getattr(first(d['abs error']), which))),
+def tv_res(d, which, k=0):
+    tv = getattr(nth(d['tol violation'], k), which)
+    re_ = getattr(nth(d['rel error'], k), which)
+    vx, vr = getattr(nth(d['vals_at_max_error'], k), which)
+    return [q(float(tv)), q(float(vx)), q(float(vr)), bool(tv > 0), q(float(getattr(nth(d['abs error'], k), which))),
             'inf' if re_ == np.inf else q(float(re_))]
 
 
@@ -110,41 +146,68 @@ def handle_partials(c):
     nr, nc = FD.shape
     fmt = c['fmt']
     atol = rtol = 2.0 ** -c['tolexp']
+    nsteps = len(c['stepexps'])
     p = om.Problem()
-    p.model.add_subsystem('c', comp)
+    p.model.add_subsystem('c', comp, promotes=['*'])
     p.setup(force_alloc_complex=(c['method'] == 'cs'))
-    p.set_val('c.x', np.array(c['x'], dtype=float))
+    p.set_val('x', np.array(c['x'], dtype=float))
     p.run_model()
     bad = []
-    kw = dict(out_stream=None, method=c['method'], step=2.0 ** -c['stepexp'], abs_err_tol=atol, rel_err_tol=rtol)
+    steps = [2.0 ** -e for e in c['stepexps']]
+    kw = dict(out_stream=None, method=c['method'], step=steps[0] if nsteps == 1 else steps,
+              abs_err_tol=atol, rel_err_tol=rtol)
     if c['method'] == 'fd':
         kw['form'] = c['form']
-    data = None
-    for _ in range(c.get('repeat', 1)):     # a second check must report the same thing
-        try:
-            data = p.check_partials(**kw)
-        except KeyError as e:
-            return {'res': [{'e': 1}, None, None], 'ok': False, 'sig': 'check_partials-crash-' + fmt,
-                    'msg': 'check_partials raised KeyError(%s) for a %s partial with approximated nonzeros outside '
-                           'the declared pattern' % (e, fmt), 'kind': fmt + ' ' + c['method']}
-    d = data['c']['y', 'x']
     inpat = np.zeros((nr, nc), dtype=bool)
     if fmt == 'dense':
         inpat[:] = True
     else:
         for (r, k) in pat:
             inpat[r, k] = True
-    # 1. the analytic and approximated values that were actually computed
-    Jfwd, Jfd = np.asarray(d['J_fwd']), np.asarray(first(d['J_fd']))
-    if not np.array_equal(Jfwd, np.where(inpat, AN, 0.0)):
-        bad.append('J_fwd %s is not the analytic jacobian the component computed %s' % (
-            Jfwd.tolist(), np.where(inpat, AN, 0.0).tolist()))
-    if not np.array_equal(Jfd, np.where(inpat, FD, 0.0)):
-        bad.append('J_fd %s is not the approximated jacobian %s on the declared pattern' % (
-            Jfd.tolist(), np.where(inpat, FD, 0.0).tolist()))
+    analytic = np.where(inpat, AN, 0.0)
+    hist = bool(c.get('hist'))
+
+    def totals(when):
+        J = np.array(p.compute_totals(of=['y'], wrt=['x'], return_format='array'))
+        if not np.array_equal(J, analytic):
+            bad.append('compute_totals %s check_partials returns %s, the component\'s partials are %s' % (
+                when, J.tolist(), analytic.tolist()))
+    if hist:
+        totals('before')
+    data = None
+    for rep_k in range(c.get('repeat', 1)):     # a second check must report the same thing
+        try:
+            data = p.check_partials(**kw)
+        except KeyError as e:
+            return {'res': [{'e': 1}, None, None], 'ok': False, 'sig': 'check_partials-crash-' + fmt,
+                    'msg': 'check_partials raised KeyError(%s) for a %s partial with approximated nonzeros outside '
+                           'the declared pattern' % (e, fmt), 'kind': fmt + ' ' + c['method']}
+        d = data['c']['y', 'x']
+        # 1. the analytic values that were actually computed
+        Jfwd = np.asarray(d['J_fwd'])
+        if not np.array_equal(Jfwd, analytic):
+            bad.append('check %d: J_fwd %s is not the analytic jacobian of the component %s' % (
+                rep_k, Jfwd.tolist(), analytic.tolist()))
+    if hist:
+        totals('after')
+    d = data['c']['y', 'x']
+    Jfwd = np.asarray(d['J_fwd'])
+    jfds = d['J_fd'] if isinstance(d['J_fd'], list) else [d['J_fd']]
+    if len(jfds) != nsteps:
+        bad.append('%d J_fd entries for %d steps' % (len(jfds), nsteps))
+    # ... and the approximated values computed with each step
+    for k in range(min(nsteps, len(jfds))):
+        want = np.where(inpat, expected_fd(c, k), 0.0)
+        if not np.array_equal(np.asarray(jfds[k]), want):
+            bad.append('J_fd for step %g is %s, the approximation with that step is %s' % (
+                step_of(c, k), np.asarray(jfds[k]).tolist(), want.tolist()))
+    if 'steps' in d:        # only kept in the return dict for step lists
+        if [float(v) for v in d['steps']] != [step_of(c, k) for k in range(nsteps)]:
+            bad.append('reported steps %s, steps used %s' % (d['steps'], [step_of(c, k) for k in range(nsteps)]))
     # 2. every approximated nonzero outside the declared pattern is flagged (sparse formats)
+    last = expected_fd(c, nsteps - 1)
     expected = sorted((int(r), int(k)) for r in range(nr) for k in range(nc)
-                      if not inpat[r, k] and abs(FD[r, k]) > THR)
+                      if not inpat[r, k] and abs(last[r, k]) > THR)
     got = d.get('uncovered_nz')
     rep = None if got is None else [[int(a), int(b)] for a, b in got]
     if fmt != 'dense':
@@ -155,11 +218,20 @@ def handle_partials(c):
         if expected and 'uncovered_threshold' not in d:
             bad.append('uncovered_threshold missing')
     # 3. error magnitudes equal the differences of what is reported
-    errors_oracle(Jfwd, Jfd, atol, rtol, d, 'forward', bad)
-    res = [rep, qmat(Jfd), tv_res(d, 'forward')]
-    return {'res': res, 'ok': not bad, 'msg': '; '.join(bad)[:1500],
-            'sig': ('uncovered-nz-' + fmt) if any('uncovered' in b for b in bad) else 'check-partials-report',
-            'kind': '%s %s%s' % (fmt, c['method'], ' under-declared' if expected else '')}
+    for k in range(min(nsteps, len(jfds))):
+        errors_oracle(Jfwd, np.where(inpat, expected_fd(c, k), 0.0), atol, rtol, d, 'forward', bad, k)
+    res = [rep, [qmat(j) for j in jfds], [tv_res(d, 'forward', k) for k in range(len(jfds))]]
+    sig = 'check-partials-report'
+    if any('uncovered' in b for b in bad):
+        sig = 'uncovered-nz-' + fmt
+    elif any('J_fd for step' in b for b in bad):
+        sig = 'multi-step-J_fd-' + fmt
+    elif any('compute_totals' in b or 'J_fwd' in b for b in bad):
+        sig = 'check-overwrites-partials-' + fmt
+    return {'res': res, 'ok': not bad, 'msg': '; '.join(bad)[:1500], 'sig': sig,
+            'kind': '%s %s%s%s%s%s' % (fmt, c['method'], ' under-declared' if expected else '',
+                                       ' multistep' if nsteps > 1 else '', ' const' if c.get('const') else '',
+                                       ' history' if hist else '')}
 
 
 def handle_totals(c):
